@@ -207,7 +207,8 @@ def calls(run, P, rule):
         "verify_switch_phases": False,
         "verify_single_definition_cond_rule": True,
     }
-    loops = _loop_over_phases(f.node, "code.phases")
+    code = f.arg(0)
+    loops = _loop_over_phases(f.node, f"{code}.phases")
     for name, per_phase in passes.items():
         nodes = call_nodes(name)
         if not nodes:
@@ -225,13 +226,13 @@ def calls(run, P, rule):
             arg = c.args[0] if c.args else None
             ok = owner is not None and dotted(arg) == f"{owner}.statements"
             run.ob(rule, f, c, ok,
-                   construct=f"{norm(c)} inside 'for {owner} in code.phases.values()'"
+                   construct=f"{norm(c)} inside 'for {owner} in {code}.phases.values()'"
                    if owner else f"{norm(c)} outside any loop over the phases",
                    why="called outside the loop the pass sees only the last phase "
                        "(leaked loop variable): a cycle or doubly assigned flag in "
                        "any other phase is accepted")
         else:
-            ok = bool(c.args) and dotted(c.args[0]) == "code.phases"
+            ok = bool(c.args) and dotted(c.args[0]) == f"{code}.phases"
             run.ob(rule, f, c, ok, construct=norm(c),
                    why="the pass must see the whole phase map")
     ex = call_nodes("verify_all_dependencies_exist")
@@ -509,7 +510,7 @@ def flag(run, P, rule):
               and isinstance(n.test.ops[0], ast.Gt)
               and isinstance(n.test.comparators[0], ast.Constant)
               and n.test.comparators[0].value == 1
-              and "errors.append(" in ast.unparse(n)]
+              and f"{f.arg(1)}.append(" in ast.unparse(n)]
     run.ob(rule, f, report[0] if report else f.node, bool(report),
            construct="more than one writer -> errors.append(...)",
            why="at most one assignment per flag and phase")
@@ -535,7 +536,7 @@ def _switch(run, P):
                 or any(isinstance(s, ast.If) and
                        ast.unparse(s.test).startswith(f"isinstance({iv}, SwitchPhase)")
                        for s in il.body)
-            test_ok = any(f"{iv}.next_phase not in {phases}" in s and "errors.append(" in s
+            test_ok = any(f"{iv}.next_phase not in {phases}" in s and f"{f.arg(1)}.append(" in s
                           for s in src)
             ok = skip_ok and test_ok
             site = il
